@@ -91,7 +91,6 @@ func atomLint(w *World, r *Report, rule string) {
 	r.floor(rule, "uses of swap! in the embedded headers", cnt, 3)
 }
 
-
 // loadTimeAtoms: reviewed load-time atoms of the embedded headers, by the name their top-level def binds.
 var loadTimeAtoms = map[string]string{
 	"gensym":         "a counter only ever incremented through swap!; callers use the value swap! returned",
